@@ -7,6 +7,7 @@ unifier `Inf.unify` and `Prog.infer` (what the driver runs).
 -/
 import SimplicityModel.Prog.Infer
 import SimplicityModel.InferTerm
+import SimplicityModel.Prog.InferUBProps
 
 namespace Props.C04
 open Prog Inf
@@ -89,5 +90,93 @@ example : ∃ es S, constraints (fun _ => none) #[.unit, .injl 0] false = some e
 example : ∃ es, constraints (fun _ => none) #[.iden, .pair 0 0, .comp 1 1] false = some es ∧
     unify 50 es [] = .occurs :=
   ⟨_, rfl, rfl⟩
+
+/-! ## The algorithm the code runs
+
+`Prog.inferUB` (`Prog/InferUB.lean`, `UnionBound.lean`) is a transcription of what the library does:
+`Context` with its slab of bounds, `UbElement` union–find with rank and path halving, `bind`/`unify`
+with the case analysis of `context.rs` (eager completion, deferred occurs check), `Type::finalize`
+(occurs check, free variables to unit, write-back) and `Arrow::…` as sequences of those calls, run
+over a plan in a given construction order.  `Prog.ubEqns` are the equations the calls of a run stand
+for (`unify a b ↦ a = b`, `bind_product e a b ↦ e = a × b`, `Type::sum a b ↦ new = a + b`, …) over
+the element indices as type variables; they are computed without running the algorithm. -/
+
+open UB in
+/-- **(d) Path halving and union by rank do not change what a context represents.**  `root_element`
+(which rewires parent pointers), bumping a rank and the choice of which root `unify` keeps leave the
+set of assignments of the context unchanged, resp. exactly add the equation `x = y`. -/
+theorem unionfind_preserves_meaning (F f : Nat) (c : Ctx) (x y : Nat) :
+    (∀ c' r, rootElement F c x = .ok (c', r) →
+      (∀ ρ, SolSt ρ c' ↔ SolSt ρ c) ∧ (∀ ρ, ParentSol ρ c' ↔ ParentSol ρ c) ∧ c'.slab = c.slab) ∧
+    (∀ ρ, SolSt ρ (bumpRank c x) ↔ SolSt ρ c) ∧
+    (WF c → ∀ c', unify F f c x y = .ok c' → ∀ ρ, SolSt ρ c' ↔ (SolSt ρ c ∧ ρ x = ρ y)) := by
+  refine ⟨fun c' r h => ?_, fun ρ => (bumpRank_compress c x).sol ρ, fun w c' h => ?_⟩
+  · obtain ⟨k, _, _⟩ := rootElement_spec _ _ _ _ _ h
+    exact ⟨k.sol, k.par, k.slab⟩
+  · have g := unify_good F f w x y
+    rw [h] at g
+    exact g.2.2.1
+
+/-- **(a) An accepted run returns the least solution.**  If the transcribed algorithm finishes
+without error on a plan (any construction order, any fuel), and its coverage check holds, there is an
+assignment `ρ₀` of the run's equations that is *below every other solution* in the prune order, and
+every constructed node gets exactly `ρ₀` of its source and target. -/
+theorem inferUB_is_least_solution (F : Nat) (jt : JetTypes) (p : Plan) (order : List Nat)
+    (program : Bool) {arrows : Array (Option (BM4.Ty × BM4.Ty))} {E : List Eqn}
+    {ea : Array (Option ElemArrow)}
+    (h : inferUBWith F jt p order program = .ok arrows true)
+    (hE : ubEqns jt p order program = some (E, ea)) :
+    ∃ ρ₀ : Nat → Inf.Ty, Sol ρ₀ E ∧ (∀ ρ, Sol ρ E → ∀ x, Le (ρ₀ x) (ρ x)) ∧ arrows.size = p.size ∧
+      ∀ i s t, i < p.size → (ea[i]?).join = some (s, t) →
+        arrows[i]? = some (some (tyOfInf (ρ₀ s), tyOfInf (ρ₀ t))) :=
+  inferUB_least F jt p order program h hE
+
+/-- … which is the solution the reference unifier computes: whenever `Inf.unify` answers `ok S` on
+the same equations, every constructed node's arrow is `closeUnit S` of its source and target (so the
+existing theorems about the reference unifier — sound, principal, order independent — apply to the
+algorithm's output); and the reference unifier cannot reject what the algorithm accepts. -/
+theorem inferUB_matches_reference_unifier (F f : Nat) (jt : JetTypes) (p : Plan) (order : List Nat)
+    (program : Bool) {arrows : Array (Option (BM4.Ty × BM4.Ty))} {E : List Eqn}
+    {ea : Array (Option ElemArrow)}
+    (h : inferUBWith F jt p order program = .ok arrows true)
+    (hE : ubEqns jt p order program = some (E, ea)) :
+    (unify f E [] ≠ .clash ∧ unify f E [] ≠ .occurs) ∧
+    ∀ S, unify f E [] = .ok S → ∀ i s t, i < p.size → (ea[i]?).join = some (s, t) →
+      arrows[i]? = some (some (tyOfInf (closeUnit S s), tyOfInf (closeUnit S t))) := by
+  obtain ⟨ρ₀, h1, h2, _, h4⟩ := inferUB_least F jt p order program h hE
+  have hden : Den ρ₀ E [] := ⟨h1, by simp [SolS]⟩
+  have hg := unify_good f E []
+  refine ⟨⟨fun hc => ?_, fun hc => ?_⟩, fun S hS i s t hi hst => ?_⟩
+  · rw [hc] at hg; exact hg ρ₀ hden
+  · rw [hc] at hg; exact hg ρ₀ hden
+  · have hl := unify_least f E S hS
+    have heq : ∀ x, closeUnit S x = ρ₀ x := fun x => Le.antisymm (hl.2 ρ₀ h1 x) (h2 _ hl.1 x)
+    rw [heq s, heq t]
+    exact h4 i s t hi hst
+
+/-- **(b) Errors only for unsolvable constraints.**  If the transcribed algorithm reports
+`Error::Bind` (two different constructors must be equal) or `Error::OccursCheck` (a cycle), the
+equations of the run have no finite solution at all — so the reference unifier does not accept them
+either. -/
+theorem inferUB_rejects_only_unsolvable (F f : Nat) (jt : JetTypes) (p : Plan) (order : List Nat)
+    (program : Bool) {E : List Eqn} {ea : Array (Option ElemArrow)}
+    (h : inferUBWith F jt p order program = .typeError ∨ inferUBWith F jt p order program = .occurs)
+    (hE : ubEqns jt p order program = some (E, ea)) :
+    (∀ ρ, ¬ Sol ρ E) ∧ ∀ S, unify f E [] ≠ .ok S := by
+  have hno := Prog.inferUB_rejects_only_unsolvable F jt p order program h hE
+  exact ⟨hno, fun S hS => hno _ (unify_least f E S hS).1⟩
+
+/-! Non-vacuity: an accepted plan built out of index order, an occurs-check rejection, a clash. -/
+example : ∃ E ea, ubEqns (fun _ => none) #[.unit, .injl 0, .iden, .comp 1 2] [2, 0, 1, 3] false = some (E, ea) ∧
+    inferUBWith 50 (fun _ => none) #[.unit, .injl 0, .iden, .comp 1 2] [2, 0, 1, 3] false =
+      .ok #[some (.one, .one), some (.one, .sum .one .one),
+            some (.sum .one .one, .sum .one .one), some (.one, .sum .one .one)] true :=
+  ⟨_, _, rfl, rfl⟩
+example : ∃ E ea, ubEqns (fun _ => none) #[.iden, .pair 0 0, .comp 1 1] [0, 1, 2] false = some (E, ea) ∧
+    inferUBWith 50 (fun _ => none) #[.iden, .pair 0 0, .comp 1 1] [0, 1, 2] false = .occurs :=
+  ⟨_, _, rfl, rfl⟩
+example : ∃ E ea, ubEqns (fun _ => none) #[.unit, .injl 0, .take 0, .comp 1 2] [0, 2, 1, 3] false = some (E, ea) ∧
+    inferUBWith 50 (fun _ => none) #[.unit, .injl 0, .take 0, .comp 1 2] [0, 2, 1, 3] false = .typeError :=
+  ⟨_, _, rfl, rfl⟩
 
 end Props.C04
